@@ -414,7 +414,7 @@ def CountRet (img : Image) (K : Ctx) (f : Nat) : Prop :=
         loopPost none) ++
       [.jump .always off] ++ [.endLoop]) →
     ((top + 5 + (genBlock body).length + 4 : Nat) : Int) + off = (top : Int) →
-    execPasses f (List.replicate (passes q) []) body σ = (.ret, σ') → Exec img s (RetPost K σ')
+    execPasses f (List.replicate (passes q) []) none body σ = (.ret, σ') → Exec img s (RetPost K σ')
 
 theorem count_ret_zero : CountRet img K 0 := by
   intro body _ σ σ' s top stk vars ht cnt q fl off _ _ _ _ _ _ h
@@ -436,7 +436,7 @@ theorem count_ret_step (f : Nat) (ihB : BlockGoal img K f) (ihBR : BlockRet img 
   have hex := exec_counterTest vars ht cnt q fl sim hpc hct hcnt hnum
   by_cases hq : 0 < q
   · rw [passes_pos q hq, List.replicate_succ, execPasses_succ] at h
-    simp only [List.foldl_nil] at h
+    simp only [List.foldl_nil, stepIdx] at h
     have hjmp : ∀ t0, (At K (top + 4) (.loop vars ht :: stk) [] σ t0 ∧
         t0.regs .result = .bool (decide (0 < q))) →
         Exec img t0 (At K (top + 5) (.loop vars ht :: stk) [] σ) := by
@@ -516,8 +516,8 @@ theorem loop_count_ret (f : Nat) (ihC : CountRet img K f) (n : Rv) (hn : RvOK n)
         simp only [numToCount, Option.map_eq_some_iff] at hq
         obtain ⟨⟨q', fl⟩, h1, h2⟩ := hq
         exact ⟨fl, by rw [h1]; simp at h2; rw [h2]⟩
-      have h' : execPasses f (List.replicate (passes q) []) body σ1 = (.ret, σ') := by
-        rw [← range_map_nil]; exact h
+      have h' : execPasses f (List.replicate (passes q) []) none body σ1 = (.ret, σ') := by
+        rw [← passCount_eq]; exact h
       have hloop := hc.left.left.left.left.left.head
       have hpre := hc.left.left.left.left.left.tail
       have hrest : CodeAt img (pc + 1 + (genRv n (.to counter)).length)
